@@ -1588,7 +1588,9 @@ def eval_f(ctx, cases):
             sub = {"dict": c["dict"], "userVRO": False, "keep": False, "tags": tags, "postTags": post}
             for clause, detail in a_oracle(sub, b):
                 ctx.fail(clause, key, pair, mo2, note="setup: " + detail)
-            if c["dict"] == "default" and "type:exact" not in b["vro"] and "bogus" not in tags:
+            if c["dict"] == "default" and "type:exact" not in b["vro"] and all(t in A_KNOWN for t in tags + post):
+                # (a tag that is not registered — `bogus`, or `None` next to another -t — is refused, and the qualified
+                # entries go with it: _kindlySetPreferredTags; modelled, not a clause of the property)
                 ctx.fail("default_vro_entries_kept", key, pair, mo2, note="type:exact is missing from %s" % b["vro"])
 
 
@@ -2168,7 +2170,9 @@ def run(ctx):
     big = ctx.n(0, 1) == 1                       # thorough tier, or escalated
     if big:
         if ctx.tier == "thorough":
-            exhaustive_b(ctx)
+            # each exhaustive family gets a share of what is left, so that neither starves the other nor the streams
+            final = ctx.deadline
+            ctx.deadline = min(final, time.time() + 0.2 * max(0.0, final - time.time()))
             fa = all_f()
             ctx.hist("F:exhaustive-command-lines", len(fa))
             for k in range(0, len(fa), 300):
@@ -2176,6 +2180,9 @@ def run(ctx):
                     ctx.note("exhaustive command lines cut short by the time budget at %d of %d" % (k, len(fa)))
                     break
                 eval_f(ctx, fa[k:k + 300])
+            ctx.deadline = min(final, time.time() + 0.45 * max(0.0, final - time.time()))
+            exhaustive_b(ctx)
+            ctx.deadline = final
         left = {k: THOROUGH[k] - done[k] for k in QUICK}
         while any(v > 0 for v in left.values()) and not ctx.out_of_time():
             for k in QUICK:
